@@ -17,7 +17,15 @@ What is proved, for ALL trees / token lists (no size bound):
                              from JSON still parses to the same meaning;
   * literal codecs: unescape ∘ escape = id for ' " /, the single-quote scanner stops at the right quote unless
     the literal ends in a backslash; in that case the repaired StringNode.Format (02ebb2e) uses triple quotes;
-  * counterexamples for the code BEFORE the repairs (found by the check on the real code, then fixed).
+  * counterexamples for the code BEFORE the repairs (found by the check on the real code, then fixed);
+  * float literals of EVERY magnitude and digit count (section "float literals", model `F64` = exact binary64:
+    correctly rounded parse, shortest decimal that parses back): the printed text is `digits.digits`, is read by
+    the lexer as one number token, decodes to the same binary64 value, and is its own canonical text
+    (`float_text_parses_back`, `float_literal_value_preserved`, `float_format_idempotent`,
+    `float_literal_lex_dec_ok`, `float_literal_format_then_parse`). strconv's own algorithms are NOT transcribed:
+    `F64.parse` / `F64.fmt` are definitions of what ParseFloat / FormatFloat(f,'f',-1,64) document, tied to Go by
+    the correspondence run on every generated float; that `F64.fmt` always finds a text (17 digits suffice) is
+    stated, not proved (`float_format_total_stmt`), evaluated on the boundary values and measured on every case.
 Stated, not proved (kept visible): see the end of the file.
 -/
 import Kap.Proofs.C13Lit
@@ -29,6 +37,7 @@ import Kap.Proofs.C13LexStr
 import Kap.Proofs.C13ProgImage
 import Kap.Proofs.C13ProgFuel
 import Kap.Proofs.C13DecodeTree
+import Kap.Proofs.C13Float
 import Kap.Proofs.C13Tick
 import Kap.Gen.C13Tick
 
@@ -590,5 +599,161 @@ example : decOK (.bin .TokenAnd
         (.call "f" [.lit .star, .lit (.num (.int 10 (-3))), .lit (.num (.flt "1.5")), .lit (.dur 5400000000000 "90m")])
         (.un .neg (.bin .TokenPlus (.id "x") (.lit (.num (.int 10 1))) false)) false) false) = true := by
   decide
+
+/-! ## Float literals of every magnitude (NumberNode.Format / newNumber on IsFloat numbers)
+
+`F64.Val` is an exact binary64 value `m * 2^e`; `F64.parse` rounds the decimal text correctly (ties to even, overflow
+is a parse error); `F64.fmt` prints the shortest decimal that parses back (the closer one of two), in %f layout with
+the `.0` NumberNode.Format appends to a whole value. `Num.flt` keeps the float as this canonical text. -/
+
+/-- the property for one float, on binary64 VALUES: the text Format prints for `v` is read back as `v` -/
+theorem float_text_parses_back (v : F64.Val) (t : List Char) (h : F64.fmt v = some t) : F64.parse t = some v :=
+  F64.fmt_parses_back v t h
+
+/-- … and it is `digits . digits` with both sides non-empty – in particular a WHOLE value is printed with a decimal
+point (so that it is read back as a float, not as an integer), and never with a sign or an exponent -/
+theorem float_text_shape (v : F64.Val) (t : List Char) (h : F64.fmt v = some t) : fltTextOK t = true :=
+  F64.fmt_shape v t h
+
+/-- a float literal of ANY spelling (any number of digits, `3.`, `.5`, leading zeros, up to the largest finite
+binary64): the text Format prints for the number `newNumber` read denotes the same binary64 value as the source
+text -/
+theorem float_literal_value_preserved (text c : String) (h : newNumber text = .ok (.flt c)) :
+    F64.parse c.toList = F64.parse text.toList ∧ (F64.parse text.toList).isSome = true := by
+  have hc : canonFloat text.toList = .ok c := by
+    unfold newNumber at h
+    simp only at h
+    split at h
+    · simp at h
+    · split at h
+      · cases hcf : canonFloat text.toList with
+        | ok c' =>
+          rw [hcf] at h
+          simp only [Res.bind, Res.ok.injEq, Num.flt.injEq] at h
+          rw [h]
+        | err => rw [hcf] at h; simp [Res.bind] at h
+        | na w => rw [hcf] at h; simp [Res.bind] at h
+      · split at h <;> simp at h
+  obtain ⟨v, t, hv, ht, hct⟩ := canonFloat_ok_iff _ c hc
+  rw [hct, String.toList_ofList, F64.fmt_parses_back v t ht, hv]
+  exact ⟨rfl, rfl⟩
+
+/-- formatting is idempotent on floats: the canonical text is its own canonical text (a second Format pass after
+re-parsing prints the same characters) -/
+theorem float_format_idempotent (cs : List Char) (c : String) (h : canonFloat cs = .ok c) :
+    canonFloat c.toList = .ok c :=
+  canonFloat_idem cs c h
+
+/-- every float the parser can produce passes the per-token checks of the character-level theorems: the hypotheses
+`lexOK` / `decOK` of `lexer_reads_formatted_all` / `lexer_decodes_formatted` are discharged for the whole image of
+the float branch of `newNumber` (was: floats of at most 15 significant digits, checked case by case) -/
+theorem float_literal_lex_dec_ok (text c : String) (h : newNumber text = .ok (.flt c)) (b : Bool) :
+    atomLexOK b (.num (.flt c)) = true ∧ atomDecOK (.num (.flt c)) = true :=
+  newNumber_float_ok text c h b
+
+/-- hence, at CHARACTER level: Format of a float literal node that came out of the parser, read by lexer, decoder
+and parser, is the same node -/
+theorem float_literal_format_then_parse (text c : String) (h : newNumber text = .ok (.flt c)) :
+    ((lex (fmtChars (.lit (.num (.flt c))))).bind decodeAll).bind parseTokens = .ok (.lit (.num (.flt c))) := by
+  obtain ⟨h1, h2⟩ := newNumber_float_ok text c h false
+  have hn : fltNegText c.toList = none := by
+    simp only [atomLexOK, Bool.or_eq_true] at h1
+    rcases h1 with h1 | h1
+    · exact fltTextOK_not_neg _ h1
+    · cases hf : fltNegText c.toList with
+      | none => rfl
+      | some t =>
+        -- a canonical text from the parser never starts with `-`
+        have hc : canonFloat text.toList = .ok c := by
+          unfold newNumber at h
+          simp only at h
+          split at h
+          · simp at h
+          · split at h
+            · cases hcf : canonFloat text.toList with
+              | ok c' =>
+                rw [hcf] at h
+                simp only [Res.bind, Res.ok.injEq, Num.flt.injEq] at h
+                rw [h]
+              | err => rw [hcf] at h; simp [Res.bind] at h
+              | na w => rw [hcf] at h; simp [Res.bind] at h
+            · split at h <;> simp at h
+        obtain ⟨v, t', _, ht, hct⟩ := canonFloat_ok_iff _ c hc
+        have := fltTextOK_not_neg _ (F64.fmt_shape v t' ht)
+        rw [hct, String.toList_ofList] at hf
+        rw [this] at hf
+        exact absurd hf (by simp)
+  have hfinal := format_then_parse_chars (.lit (.num (.flt c))) (Or.inr (by simpa [lexOK] using h1))
+    (by simpa [decOK] using h2)
+  have hnorm : norm (.lit (.num (.flt c))) = .lit (.num (.flt c)) := by
+    simp [norm, normLit, hn]
+  rw [hnorm] at hfinal
+  simpa [canonize] using hfinal.1
+
+/-- non-vacuity and regression values: whole floats at and beyond 2^63 (1e19, 2^63, 2^64 - the shortest text of a
+power of two is NOT its exact expansion -, 1e30), a value that needs 17 digits, a literal with more digits than a
+binary64 keeps (tie at 2^53+1 rounds to even), `3.` / `.5` spellings, a tiny fraction -/
+example : newNumber "10000000000000000000.0" = .ok (.flt "10000000000000000000.0") ∧
+    newNumber "9223372036854775808.0" = .ok (.flt "9223372036854776000.0") ∧
+    newNumber "9223372036854776000.0" = .ok (.flt "9223372036854776000.0") ∧
+    newNumber "18446744073709551616.0" = .ok (.flt "18446744073709552000.0") ∧
+    newNumber "1000000000000000000000000000000.0" = .ok (.flt "1000000000000000000000000000000.0") ∧
+    newNumber "0.30000000000000004" = .ok (.flt "0.30000000000000004") ∧
+    newNumber "0.1000000000000000055511151231257827" = .ok (.flt "0.1") ∧
+    newNumber "9007199254740993.0" = .ok (.flt "9007199254740992.0") ∧
+    newNumber "3." = .ok (.flt "3.0") ∧ newNumber ".5" = .ok (.flt "0.5") ∧
+    newNumber "0.0000001" = .ok (.flt "0.0000001") := by decide
+
+/-- the binary64 values behind some of them: 1e19 = 0x8AC7230489E80000 = 4882812500000000 * 2^11, 2^63, 0.1 -/
+example : F64.parse "10000000000000000000.0".toList = some ⟨4882812500000000, 11⟩ ∧
+    F64.parse "9223372036854775808.0".toList = some ⟨4503599627370496, 11⟩ ∧
+    F64.parse "9223372036854775807.0".toList = some ⟨4503599627370496, 11⟩ ∧
+    F64.parse "0.1".toList = some ⟨7205759403792794, -56⟩ ∧
+    F64.fmt ⟨4503599627370496, 11⟩ = some "9223372036854776000.0".toList := by decide
+
+set_option maxRecDepth 4000 in
+set_option exponentiation.threshold 1100 in
+/-- the ends of the range: the largest finite binary64 (2^1024 - 2^971, 309 digits) is accepted and printed in its
+shortest spelling `17976931348623157` followed by 292 zeros and `.0`; everything below half an ulp above it still
+rounds to it, half an ulp above it the literal is rejected (ParseFloat: value out of range) like an integer literal
+beyond int64; the smallest subnormal 2^-1074 is printed `0.` 323 zeros `5`; half of it is 0, three halves round to
+even -/
+example : F64.round (2 ^ 1024 - 2 ^ 971) 1 = some ⟨9007199254740991, 971⟩ ∧
+    F64.round (2 ^ 1024 - 2 ^ 971 + 2 ^ 970 - 1) 1 = some ⟨9007199254740991, 971⟩ ∧
+    F64.round (2 ^ 1024 - 2 ^ 971 + 2 ^ 970) 1 = none ∧
+    (F64.fmt ⟨9007199254740991, 971⟩).map (fun t => (t.take 20, t.length, t.drop 307)) =
+      some ("17976931348623157000".toList, 311, "00.0".toList) ∧
+    F64.round 1 (2 ^ 1074) = some ⟨1, -1074⟩ ∧ F64.round 1 (2 ^ 1075) = some ⟨0, -1074⟩ ∧
+    F64.round 3 (2 ^ 1075) = some ⟨2, -1074⟩ ∧
+    (F64.fmt ⟨1, -1074⟩).map (fun t => (t.take 4, t.length, t.drop 324)) = some ("0.00".toList, 326, "05".toList) := by
+  decide
+
+/-- what a whole-valued float would become if Format went through an int64 (the shortcut
+`strconv.FormatInt(int64(f), 10) + ".0"`): exact below 2^63, but the conversion wraps at 2^63 – the text of 1e19
+would be that of another number. The model prints the float's own digits. -/
+theorem whole_float_is_not_printed_through_int64 :
+    canonFloat "10000000000000000000.0".toList = .ok "10000000000000000000.0" ∧
+    toString (wrap64 10000000000000000000) ++ ".0" ≠ "10000000000000000000.0" := by decide
+
+/-- `default-int-field` (finding, real code: pipeline JSON of |default().field('n', 9223372036854775807)): an
+int64 that goes through float64 – as every integer default does in DefaultNode.UnmarshalJSON – is another number
+beyond 2^53 -/
+theorem default_int_field_json_counterexample :
+    ∃ v : Int, -int64Max ≤ v ∧ v ≤ int64Max ∧ roundF64 v ≠ v :=
+  ⟨9223372036854775807, by decide, by decide, by decide⟩
+
+/-- `default-zero-field` (finding, real code: pipeline/tick of |default().field('x', 0.0)): the builder call
+`Dot("field", key, value)` of pipeline/tick/default.go drops a zero VALUE and keeps the key: the link is printed
+`.field('x')` with one argument, which is not the property call the pipeline came from -/
+theorem default_zero_field_tick_counterexample :
+    (Tick.applyCall "Dot" "field" [.str "x", .flt "0.0"] [Tick.mkLink .pipe "default" []]).map
+      (fun ls => ls.map (fun l => (l.name, l.args.map List.length))) =
+    some [("default", some 0), ("field", some 1)] := by decide
+
+/-- stated, not proved: `F64.fmt` finds a text for EVERY canonical binary64 value (classically: 17 significant
+digits always parse back; the search allows 20). Evaluated above on the boundary values and measured on every
+float of every case of the run (a `none` would surface as branch `na:float-no-short-decimal`). -/
+def float_format_total_stmt : Prop :=
+  ∀ cs v, F64.parse cs = some v → (F64.fmt v).isSome = true
 
 end Kap.Props.C13
